@@ -18,6 +18,18 @@ Theorem C11_grouping_sums : forall ms d,
 Proof. exact combined_finite_spec. Qed.
 Print Assumptions C11_grouping_sums.
 
+(* also with open-ended members: the grouping connector accepts every sum of degrees that its present members accept -- the
+   minimum is that of the members present, not of all members of the initial graph *)
+Theorem C11_grouping_accepts_sums : forall ms ds,
+  Forall2 (fun x m => deg_ok m x = true) ds ms -> deg_ok (combined ms) (sumn ds) = true.
+Proof. exact combined_accepts_sums. Qed.
+Print Assumptions C11_grouping_accepts_sums.
+
+Example C11_ex_open_group :
+  deg_ok (combined [{| c_list := None; c_min := 1; c_rep := false |}]) 1 = true /\
+  deg_ok (combined [{| c_list := None; c_min := 1; c_rep := false |}; {| c_list := None; c_min := 1; c_rep := false |}]) 1 = false.
+Proof. vm_compute. split; reflexivity. Qed.
+
 (* a validated edge list joins present connectors only and stands for a valid matrix *)
 Theorem C11_validate_sound : forall specs I cc es,
   edges_valid specs I cc es = true ->
